@@ -50,6 +50,7 @@ func (q *recQueue) AddAfter(item interface{}, d time.Duration) {
 	q.log = append(q.log, "AddAfter "+item.(string))
 }
 func (q *recQueue) AddRateLimited(item interface{}) {
+	q.requeues++
 	q.log = append(q.log, "AddRateLimited "+item.(string))
 }
 func (q *recQueue) Forget(item interface{}) {
